@@ -63,6 +63,21 @@ Section Run.
                   | Err k => (s, SL [SN 0; sx_ekind k]) end
       | None => (s, SN 8)
       end
+    else if code =? 6 then
+      match dec_block (get_bytes (nth_sx 1 op)) with
+      | Some (b, _) => match add_block sha scrypt blake verify P s b (get_N (nth_sx 2 op)) with
+                  | Ok s' => (s', SL [SN 1])
+                  | Err k => (s, SL [SN 0; sx_ekind k]) end
+      | None => (s, SN 8)
+      end
+    else if code =? 7 then
+      (* in-state validation only (validate_block_in_coinstate), for the checkpoint rule *)
+      match dec_block (get_bytes (nth_sx 1 op)) with
+      | Some (b, _) => match v_block_in_state sha scrypt blake verify P b s with
+                  | Ok _ => (s, SL [SN 1])
+                  | Err k => (s, SL [SN 0; sx_ekind k]) end
+      | None => (s, SN 8)
+      end
     else if code =? 2 then
       (s, sx_opt sx_pkbal (balances_at sha s (get_bytes (nth_sx 1 op))))
     else if code =? 3 then
@@ -98,13 +113,20 @@ Section Run.
       end
     else (s, SN 777).
 
-  Fixpoint run_ops (s : cstate) (ops : list sx) : cstate * list sx :=
-    match ops with
-    | [] => (s, [])
-    | op :: r => let '(s1, o) := run_op s op in
-                 let '(s2, os) := run_ops s1 r in (s2, o :: os)
-    end.
 End Run.
+
+(* an op may carry its own oracle entries (4th component), consulted before the request-wide table *)
+Definition op_table (tbl : sx) (op : sx) : sx :=
+  match nth_sx 3 op with
+  | SL (e :: l) => SL ((e :: l) ++ get_list tbl)
+  | _ => tbl
+  end.
+Fixpoint run_ops (tbl : sx) (P : cparams) (s : cstate) (ops : list sx) : cstate * list sx :=
+  match ops with
+  | [] => (s, [])
+  | op :: r => let '(s1, o) := run_op (op_table tbl op) P s op in
+               let '(s2, os) := run_ops tbl P s1 r in (s2, o :: os)
+  end.
 
 Definition dispatch_chain (tbl : sx) (name : bytes) (arg : sx) : sx :=
   let is := fun s => bytes_eqb name (name_bytes s) in
